@@ -181,10 +181,10 @@ func classifyCtxErr(je *jerr.JApiError, idAt func(uint) int) string {
 }
 
 type ctxRun struct {
-	Scan   string // forest or error of the scan phase
-	Paste  string // forest or error after paste expansion ("" if the scan failed)
-	Other  bool   // rejected for a reason outside the context model (rendering not scannable, …)
-	Panic  string
+	Scan  string // forest or error of the scan phase
+	Paste string // forest or error after paste expansion ("" if the scan failed)
+	Other bool   // rejected for a reason outside the context model (rendering not scannable, …)
+	Panic string
 }
 
 // runCtx runs the scan phase and the macro/paste phase of the real library on rendered tokens.
@@ -234,4 +234,128 @@ func runCtx(tt []CTok) (res ctxRun) {
 	}
 	res.Paste = showGoForest(c.VerifDirectivesWithPastes(), idOf)
 	return res
+}
+
+func parseCToks(src string) []CTok {
+	var tt []CTok
+	for _, f := range strings.Fields(src) {
+		if f == ")" {
+			tt = append(tt, CTok{Close: true})
+			continue
+		}
+		pp := strings.Split(f, ":")
+		if len(pp) != 3 {
+			continue
+		}
+		var t CTok
+		fmt.Sscanf(pp[0], "%d", &t.Kind)
+		t.HasPath = strings.Contains(pp[1], "p")
+		t.Explicit = strings.Contains(pp[1], "x")
+		t.Annot = strings.Contains(pp[1], "a")
+		fmt.Sscanf(pp[2], "%d", &t.Name)
+		tt = append(tt, t)
+	}
+	return tt
+}
+
+// plausibleCToks generates a sequence that mostly resolves: at each step a kind admitted by one of the
+// open directives (so that walk-ups of every depth occur), a top-level kind, or a ")" when one is open.
+func plausibleCToks(r *Rng, n int, withMacros bool) []CTok {
+	var tt []CTok
+	type fr struct {
+		kind     directive.Enumeration
+		explicit bool
+	}
+	var stack []fr // innermost first
+	kinds := make([]directive.Enumeration, 0, 30)
+	for k := 0; k < 30; k++ {
+		e := directive.Enumeration(k)
+		if e == directive.Include || e == directive.Jsight {
+			continue
+		}
+		if !withMacros && (e == directive.Macro || e == directive.Paste) {
+			continue
+		}
+		kinds = append(kinds, e)
+	}
+	for len(tt) < n {
+		hasExplicit := false
+		for _, f := range stack {
+			if f.explicit {
+				hasExplicit = true
+			}
+		}
+		if hasExplicit && r.Chance(1, 5) {
+			// close the innermost explicit frame
+			j := 0
+			for j < len(stack) && !stack[j].explicit {
+				j++
+			}
+			stack = stack[j+1:]
+			tt = append(tt, CTok{Close: true})
+			continue
+		}
+		// candidate kinds admitted at some depth (not crossing an explicit frame), or root
+		var cands []directive.Enumeration
+		var depths []int
+		for _, k := range kinds {
+			placed := false
+			for d, f := range stack {
+				if f.kind.IsAllowedForDirectiveContext(k) {
+					cands = append(cands, k)
+					depths = append(depths, d)
+					placed = true
+					break
+				}
+				if f.explicit {
+					placed = true // blocked
+					break
+				}
+			}
+			if !placed && k.IsAllowedForRootContext() {
+				cands = append(cands, k)
+				depths = append(depths, len(stack))
+			}
+		}
+		if len(cands) == 0 || r.Chance(1, 25) {
+			// an inadmissible one now and then
+			k := kinds[r.Intn(len(kinds))]
+			tt = append(tt, CTok{Kind: int(k), Name: 1})
+			break
+		}
+		i := r.Intn(len(cands))
+		// prefer deeper walk-ups sometimes
+		if r.Chance(1, 3) {
+			best := i
+			for j := range cands {
+				if depths[j] > depths[best] && r.Bool() {
+					best = j
+				}
+			}
+			i = best
+		}
+		k := cands[i]
+		t := CTok{Kind: int(k)}
+		if canExplicit(k) && r.Chance(1, 3) {
+			t.Explicit = true
+		}
+		if k.IsHTTPRequestMethod() && r.Chance(1, 3) {
+			t.HasPath = true
+		}
+		if k == directive.Macro || k == directive.Paste || k == directive.Enum {
+			t.Name = 1 + r.Intn(3)
+		}
+		tt = append(tt, t)
+		if depths[i] >= len(stack) {
+			stack = nil
+		} else {
+			stack = stack[depths[i]:]
+		}
+		hoist := k.IsHTTPRequestMethod() && t.HasPath && len(stack) > 0 && stack[0].kind == directive.URL
+		if hoist {
+			stack = nil
+		}
+		stack = append([]fr{{k, t.Explicit}}, stack...)
+	}
+	return tt
 }
